@@ -613,7 +613,7 @@ pub fn check_c13(case: &Case, st: &mut Stats) -> Verdict {
                     let mut durable = Vec::new();
                     crate::exec::guarded(&mut tx, |tx| durable = crate::exec::exec_write(tx, &spec));
                     st.c.merge(&env.counters());
-                    if spec.knobs.ctor == 2 {
+                    if spec.knobs.ctor == 2 || spec.knobs.ctor == 3 {
                         continue;
                     }
                     if tx.recs.iter().any(|r| r.res.is_panic()) {
